@@ -14,8 +14,16 @@ type Config struct {
 	MaxExecs   int64
 	Deadline   time.Time
 	NoCache    bool
+	Delay      bool // delay bounding instead of preemption bounding (see RunMode)
 	Seed       uint64
+	Cache      *StateCache // shared across successive Explore calls with growing bounds (nil = private)
 }
+
+// StateCache maps a state key to the pareto-minimal budgets with which the state has been expanded.
+type StateCache struct{ m map[uint64][]budget }
+
+func NewStateCache() *StateCache { return &StateCache{m: map[uint64][]budget{}} }
+func (c *StateCache) Len() int   { return len(c.m) }
 
 type Finding struct {
 	Sig  string
@@ -55,7 +63,10 @@ func Explore(cfg Config, scenario func(), oracle Oracle) *Result {
 		cfg.MaxSteps = 5000
 	}
 	res := &Result{Outcomes: map[string]int64{}, Violations: map[string]*Violation{}, Complete: true}
-	cache := map[uint64][]budget{}
+	if cfg.Cache == nil {
+		cfg.Cache = NewStateCache()
+	}
+	cache := cfg.Cache.m
 	stop := false
 	var rec func(prefix []int, used budget)
 	rec = func(prefix []int, used budget) {
@@ -69,11 +80,14 @@ func Explore(cfg Config, scenario func(), oracle Oracle) *Result {
 		}
 		var cut func(step int, key uint64) bool
 		if !cfg.NoCache {
+			// the cache stores the REMAINING budgets with which a state has been expanded: a state is cut
+			// when it was already expanded with at least as much remaining budget in both dimensions.
+			rem := budget{int8(cfg.PreBound) - used.p, int8(cfg.FaultBound) - used.f}
 			cut = func(step int, key uint64) bool {
 				key ^= cfg.Seed
 				bs := cache[key]
 				for _, b := range bs {
-					if b.p <= used.p && b.f <= used.f {
+					if b.p >= rem.p && b.f >= rem.f {
 						res.Cuts++
 						return true
 					}
@@ -83,15 +97,15 @@ func Explore(cfg Config, scenario func(), oracle Oracle) *Result {
 				}
 				nb := bs[:0]
 				for _, b := range bs {
-					if !(used.p <= b.p && used.f <= b.f) {
+					if !(rem.p >= b.p && rem.f >= b.f) {
 						nb = append(nb, b)
 					}
 				}
-				cache[key] = append(nb, used)
+				cache[key] = append(nb, rem)
 				return false
 			}
 		}
-		x := Run(prefix, cfg.MaxSteps, false, scenario, cut)
+		x := RunMode(prefix, cfg.MaxSteps, false, cfg.Delay, scenario, cut)
 		res.Execs++
 		if n := len(x.Choices) - len(prefix); n > 0 {
 			res.Transitions += int64(n)
@@ -187,12 +201,17 @@ func DefaultOracle(x *Exec) ([]Finding, string) {
 		parts = append(parts, "fail:"+sig)
 	}
 	for _, b := range x.Blocked {
-		if strings.HasPrefix(b.Thread, "timer(") {
+		if strings.HasPrefix(b.Thread, "timer(") || b.Daemon {
 			continue
+		}
+		if len(x.Panics) > 0 {
+			continue // the execution was derailed by a panic: blocked threads are a consequence, the panic is the finding
 		}
 		kind := "deadlock"
 		if b.Lib {
 			kind = "leak"
+		} else if len(x.Panics) > 0 {
+			continue // a harness thread waiting for a thread that panicked: the panic is the finding
 		}
 		sig := fmt.Sprintf("%s:%s@%s", kind, b.Op, b.Site)
 		who := b.Thread
